@@ -30,9 +30,10 @@ ASSUMPTIONS = ["ref.scope: C99 6.2.1 ordinary-identifier scoping (file / functio
 SHARD_TIMEOUT = {"quick": 900, "thorough": 3600}
 NAMES = ["T", "U"]
 BLOCK_EVENTS = ["typedef", "obj", "objinit", "obj2", "enum", "enumval", "tag", "etag", "member", "label", "proto", "for",
-                "open", "close", "struct_enum", "selfinit", "sizeof_enum_init", "ubitfield", "etagref", "forif", "ifnoelse"]
+                "open", "close", "struct_enum", "selfinit", "sizeof_enum_init", "ubitfield", "tagobj", "for_if", "fname_typedef",
+                "etagref", "forif", "ifnoelse"]
 NEUTRAL_EVENTS = {"open", "close", "etagref", "forif", "ifnoelse"}   # events that involve none of the tracked names
-KF_EVENTS = {"enum": "K08", "enumval": "K08", "struct_enum": "K08", "sizeof_enum_init": "K08", "label": "K08",
+KF_EVENTS = {"for_if": "K11", "enum": "K08", "enumval": "K08", "struct_enum": "K08", "sizeof_enum_init": "K08", "label": "K08",
              "for": "K11", "selfinit": "K12", "objinit": "K12", "kr": "K13", "nested": "K13"}
 
 
@@ -165,6 +166,32 @@ def apply_event(P, sc, ev, n, depth_left, rename=None):
         P.lines.append("enum %s { %s } %s;" % (name, P.fresh("EN"), P.fresh("e")))
     elif ev == "member":
         P.lines.append("struct %s { int %s; };" % (P.fresh("S"), name))
+    elif ev == "tagobj":
+        # an object of enum / struct type named like a (possibly visible) typedef, with more than the bare name after it
+        if cur is not None:
+            return False
+        k = P.uid % 4
+        # (integer-typed objects only: the probes use the name in arithmetic)
+        P.lines.append([f"enum EREF {name} = EREF_A;", f"enum EREF {name}, {P.fresh('o')};",
+                        f"enum EREF {name} = EREF_B, {P.fresh('o')} = EREF_A;", f"const enum EREF {name} = EREF_A;"][k])
+        sc.declare(n, "obj") if not rename else None
+    elif ev == "for_if":
+        # for-init object + unbraced body ending in an else-less if: the parser peeks one token past the loop, which may
+        # be the '{' or '}' of a block (the lexer pushes / pops scopes when it reads them)
+        if len(sc.stack) < 2:
+            return False
+        if vis == "typedef" or cur is not None:
+            P.triggers.append(("K11", f"for-init object {n} while {n} is declared/visible as a type in the enclosing scope"))
+        P.lines.append(f"for (int {name} = 0; {name} < 1; {name}++) if (v) v = 1;")
+    elif ev == "fname_typedef":
+        # the enclosing function's own name redeclared as a typedef at the top level of its body
+        if n != "T" or len(sc.stack) != 2 or ("F", "f") in P.labels:
+            return False
+        P.labels.add(("F", "f"))
+        k = len(P.expected)
+        P.expected.append("type")
+        P.lines.append("typedef int f;")
+        P.lines.append("{ f * %s; %d; }" % (P.fresh("p"), k))
     elif ev == "ubitfield":
         # an unnamed bit-field whose type is the typedef name: a use of the name directly before ':'
         if vis != "typedef":
@@ -233,7 +260,7 @@ def build_program(u_kind, events, param=None, kr=False, nested=False, renames=No
     renames = renames or {}
     P = Prog()
     sc = Scope()
-    P.lines.append("enum EREF { EREF_A, EREF_B };")
+    P.lines.append("enum EREF { EREF_A, EREF_B }; struct SREF { int sm; }; union UREF { int um; };")
     P.lines.append("typedef int T;")
     sc.declare("T", "typedef")
     if u_kind == "typedef":
@@ -286,7 +313,7 @@ def build_program(u_kind, events, param=None, kr=False, nested=False, renames=No
         if r == "opened":
             opened += 1
             depth_left -= 1
-        if ev in NEUTRAL_EVENTS and ev not in ("open", "close"):
+        if (ev in NEUTRAL_EVENTS and ev not in ("open", "close")) or ev == "for_if":
             continue   # no probe: the token that follows a neutral event must be the next event's own first token
         P.probe(sc)
     while opened:
@@ -312,7 +339,7 @@ def build_program(u_kind, events, param=None, kr=False, nested=False, renames=No
             level += 1
         elif ev == "close":
             level -= 1
-        elif ev == "for":
+        elif ev in ("for", "for_if"):
             seen_for.setdefault((n, level), i)
         elif ev == "typedef" and (n, level) in seen_for:
             P.triggers.append(("K11", f"typedef {n} declared after a for-init object {n} in the same block"))
